@@ -66,29 +66,43 @@ theorem foldPerm_get (permr perm : Array Nat) (i : Nat) (hi : i < perm.size) :
   simp [foldPerm, Array.getElem!_eq_getD, Array.getD_eq_getD_getElem?, hi]
 
 
-/-! ### the scan loop of the pivot policy (real arithmetic) -/
+/-! ### the scan loop of the pivot policy (any scalar type whose magnitude is a non-negative rational) -/
 
-def scanTo (inp : PivIn Rat Rat) (m : Nat) : Scan Rat := (List.range m).foldl (scanStep inp) scanInit
+/-- the library's magnitude is non-negative (`|x|` on `Rat`, `|re| + |im|` on `Cx Rat`) -/
+class MagNonneg (K : Type) [Mag K Rat] : Prop where
+  nonneg : ∀ v : K, 0 ≤ (Mag.abs1 v : Rat)
 
-theorem scanTo_succ (inp : PivIn Rat Rat) (m : Nat) : scanTo inp (m + 1) = scanStep inp (scanTo inp m) m := by
+instance : MagNonneg Rat := ⟨fun v => rabs_nonneg v⟩
+instance : MagNonneg (Cx Rat) :=
+  ⟨fun v => by
+    show (0 : Rat) ≤ rabs v.re + rabs v.im
+    exact add_nonneg (rabs_nonneg _) (rabs_nonneg _)⟩
+
+section scanK
+variable {K : Type} [Inhabited K] [Mag K Rat] [Add K] [MagNonneg K]
+
+
+def scanTo (inp : PivIn K Rat) (m : Nat) : Scan Rat := (List.range m).foldl (scanStep inp) scanInit
+
+theorem scanTo_succ (inp : PivIn K Rat) (m : Nat) : scanTo inp (m + 1) = scanStep inp (scanTo inp m) m := by
   simp [scanTo, List.range_succ, List.foldl_append]
 
-theorem scan_eq_scanTo (inp : PivIn Rat Rat) : scan inp = scanTo inp inp.cands.length := rfl
+theorem scan_eq_scanTo (inp : PivIn K Rat) : scan inp = scanTo inp inp.cands.length := rfl
 
-def eligAt (inp : PivIn Rat Rat) (k : Nat) : Bool := (inp.cands[k]!).elig
-def magAt (inp : PivIn Rat Rat) (k : Nat) : Rat := scanMag inp.milu inp.dropSum (inp.cands[k]!).val
+def eligAt (inp : PivIn K Rat) (k : Nat) : Bool := (inp.cands[k]!).elig
+def magAt (inp : PivIn K Rat) (k : Nat) : Rat := scanMag inp.milu inp.dropSum (inp.cands[k]!).val
 
-theorem magAt_nonneg (inp : PivIn Rat Rat) (k : Nat) : 0 ≤ magAt inp k := by
+theorem magAt_nonneg (inp : PivIn K Rat) (k : Nat) : 0 ≤ magAt inp k := by
   unfold magAt scanMag
-  split <;> exact rabs_nonneg _
+  split <;> exact MagNonneg.nonneg _
 
-structure ScanInv (inp : PivIn Rat Rat) (m : Nat) (s : Scan Rat) : Prop where
+structure ScanInv (inp : PivIn K Rat) (m : Nat) (s : Scan Rat) : Prop where
   alt : (s.pivmax = -1 ∧ s.ptr0 = none ∧ ∀ k, k < m → eligAt inp k = false) ∨
         (0 ≤ s.pivmax ∧ s.pivptr < m ∧ magAt inp s.pivptr = s.pivmax ∧ ∃ p0, s.ptr0 = some p0 ∧ p0 < m)
   diag_lt : ∀ d, s.diag = some d → d < m
   old_lt : ∀ d, s.oldPtr = some d → d < m
 
-theorem scanInv_scanTo (inp : PivIn Rat Rat) (m : Nat) : ScanInv inp m (scanTo inp m) := by
+theorem scanInv_scanTo (inp : PivIn K Rat) (m : Nat) : ScanInv inp m (scanTo inp m) := by
   induction m with
   | zero =>
     refine ⟨Or.inl ⟨rfl, rfl, fun k hk => by omega⟩, ?_, ?_⟩ <;> intro d hd <;> simp [scanTo, scanInit] at hd
@@ -133,5 +147,145 @@ theorem scanInv_scanTo (inp : PivIn Rat Rat) (m : Nat) : ScanInv inp m (scanTo i
         · right; exact ⟨h1, by omega, h3, p0, h4, by omega⟩
       · intro d hd; have := ih.diag_lt d hd; omega
       · intro d hd; have := ih.old_lt d hd; omega
+
+end scanK
+
+/-! ### the pivot left by the policy is nonzero (helpers of `ilu_pivot_total`) -/
+
+theorem rabs_add_sgn (v d : Rat) (hd : 0 ≤ d) : rabs (v + sgnR v * d) = rabs v + d := by
+  simp only [rabs_eq_abs]
+  unfold sgnR
+  by_cases hv : v ≥ 0
+  · simp only [hv, if_true, one_mul]
+    rw [abs_of_nonneg (by linarith), abs_of_nonneg hv]
+  · simp only [hv, if_false]
+    have hv' : v < 0 := not_le.mp hv
+    rw [abs_of_neg (by linarith), abs_of_neg hv']
+    ring
+
+theorem testMag_eq {K : Type} [Mag K Rat] [Add K] (milu : Milu) (dropSum : K) (ds : Rat) (v : K) :
+    testMag milu dropSum ds v =
+      (if milu.absVariant = true then scanMag milu dropSum v + ds else scanMag milu dropSum v) := by
+  cases milu <;> simp [testMag, scanMag, Milu.absVariant]
+
+theorem reset_ne_zero (milu : Milu) (ds v : Rat) (hds : milu.absVariant = true → 0 ≤ ds)
+    (h : testMag milu ds ds v ≠ 0) :
+    (match milu with
+      | Milu.silu => v
+      | Milu.smilu1 => v + ds
+      | _ => v + sgnR v * ds) ≠ 0 := by
+  cases milu
+  · simp only [testMag, Mag.abs1] at h
+    intro hv; dsimp only at hv; apply h; rw [hv]; rfl
+  · simp only [testMag, Mag.abs1] at h
+    intro hv; dsimp only at hv; apply h; rw [hv]; rfl
+  · simp only [testMag, Mag.abs1] at h
+    intro hv; dsimp only at hv
+    have := rabs_add_sgn v ds (hds rfl)
+    rw [hv] at this
+    apply h; rw [← this]; rfl
+  · simp only [testMag, Mag.abs1] at h
+    intro hv; dsimp only at hv
+    have := rabs_add_sgn v ds (hds rfl)
+    rw [hv] at this
+    apply h; rw [← this]; rfl
+
+theorem cx_abs1_zero : (Mag.abs1 (0 : Cx Rat) : Rat) = 0 := by
+  show rabs (0 : Cx Rat).re + rabs (0 : Cx Rat).im = 0
+  simp [Cx.zero_def]
+
+/-- `v + z_sgn(v) * (d + 0i)` with `d ≥ 0` vanishes only if `v = 0` and `d = 0` -/
+theorem cx_add_sgn_ne_zero (t : Cx Rat → Rat) (ht0 : ∀ z, 0 ≤ t z) (ht : ∀ z, t z = 0 ↔ z = 0)
+    (v D : Cx Rat) (hd : 0 ≤ D.re) (hi : D.im = 0) (h : (Mag.abs1 v : Rat) + D.re ≠ 0) :
+    v + sgnC t v * D ≠ 0 := by
+  intro hz
+  have h1 := congrArg Cx.re hz
+  have h2 := congrArg Cx.im hz
+  unfold sgnC at h1 h2
+  by_cases htv : t v = 0
+  · have hv : v = 0 := (ht v).mp htv
+    simp only [htv, beq_self_eq_true, if_true, Cx.add_def, Cx.mul_def, Cx.zero_def, hi] at h1
+    rw [hv] at h1 h
+    apply h
+    rw [cx_abs1_zero]
+    simp only [Cx.zero_def] at h1
+    linarith
+  · have hb : (t v == 0) = false := by simpa using htv
+    simp only [hb, Bool.false_eq_true, if_false, Cx.add_def, Cx.mul_def, Cx.zero_def, hi] at h1 h2
+    have htp : 0 < t v := lt_of_le_of_ne (ht0 v) (Ne.symm htv)
+    have hfac : 0 < 1 + D.re / t v := by
+      have : 0 ≤ D.re / t v := div_nonneg hd (le_of_lt htp)
+      linarith
+    have e1 : v.re * (1 + D.re / t v) = 0 := by
+      have : v.re * (1 + D.re / t v) = v.re + (v.re / t v * D.re - v.im / t v * 0) := by ring
+      rw [this]; exact h1
+    have e2 : v.im * (1 + D.re / t v) = 0 := by
+      have : v.im * (1 + D.re / t v) = v.im + (v.im / t v * D.re + v.re / t v * 0) := by ring
+      rw [this]; exact h2
+    have r0 : v.re = 0 := by
+      rcases mul_eq_zero.mp e1 with h' | h'
+      · exact h'
+      · linarith
+    have i0 : v.im = 0 := by
+      rcases mul_eq_zero.mp e2 with h' | h'
+      · exact h'
+      · linarith
+    apply htv
+    apply (ht v).mpr
+    cases v
+    simp only at r0 i0
+    rw [r0, i0]; rfl
+
+theorem reset_ne_zero_cx (t : Cx Rat → Rat) (ht0 : ∀ z, 0 ≤ t z) (ht : ∀ z, t z = 0 ↔ z = 0)
+    (milu : Milu) (D v : Cx Rat) (hds : milu.absVariant = true → 0 ≤ D.re ∧ D.im = 0)
+    (h : testMag milu D D.re v ≠ 0) :
+    (match milu with
+      | Milu.silu => v
+      | Milu.smilu1 => v + D
+      | _ => v + sgnC t v * D) ≠ 0 := by
+  cases milu
+  · simp only [testMag] at h
+    intro hv; dsimp only at hv; apply h; rw [hv]; exact cx_abs1_zero
+  · simp only [testMag] at h
+    intro hv; dsimp only at hv; apply h; rw [hv]; exact cx_abs1_zero
+  · simp only [testMag] at h
+    exact cx_add_sgn_ne_zero t ht0 ht v D (hds rfl).1 (hds rfl).2 h
+  · simp only [testMag] at h
+    exact cx_add_sgn_ne_zero t ht0 ht v D (hds rfl).1 (hds rfl).2 h
+
+section chooseK
+variable {K : Type} [Inhabited K] [Mag K Rat] [Add K] [MagNonneg K]
+
+/-- the position chosen by the policy lies inside the column and passes the nonzero test -/
+theorem choosePtr_spec (inp : PivIn K Rat) (ds : Rat) (pm : Rat) (hpos : 0 < pm)
+    (hpm : (if inp.milu.absVariant = true then (scan inp).pivmax + ds else (scan inp).pivmax) = pm)
+    (hlen : 0 < inp.cands.length) (inv : ScanInv inp inp.cands.length (scan inp))
+    (h2 : (scan inp).pivptr < inp.cands.length) (h3 : magAt inp (scan inp).pivptr = (scan inp).pivmax) :
+    (choosePtr inp ds (scan inp) pm).1 < inp.cands.length ∧
+    testMag inp.milu inp.dropSum ds (inp.cands[(choosePtr inp ds (scan inp) pm).1]!).val ≠ 0 := by
+  have hpiv : testMag inp.milu inp.dropSum ds (inp.cands[(scan inp).pivptr]!).val ≠ 0 := by
+    rw [testMag_eq]
+    have : scanMag inp.milu inp.dropSum (inp.cands[(scan inp).pivptr]!).val = (scan inp).pivmax := h3
+    rw [this, hpm]
+    exact ne_of_gt hpos
+  unfold choosePtr
+  simp only []
+  split
+  · rename_i hr
+    simp only [Bool.and_eq_true, Bool.not_eq_true', beq_eq_false_iff_ne, decide_eq_true_eq] at hr
+    refine ⟨?_, hr.1.2⟩
+    cases ho : (scan inp).oldPtr with
+    | none => simpa using hlen
+    | some d => simpa using inv.old_lt d ho
+  · split
+    · rename_i d hd
+      split
+      · rename_i hr
+        simp only [Bool.and_eq_true, Bool.not_eq_true', beq_eq_false_iff_ne, decide_eq_true_eq] at hr
+        exact ⟨inv.diag_lt d hd, hr.1⟩
+      · exact ⟨h2, hpiv⟩
+    · exact ⟨h2, hpiv⟩
+
+end chooseK
 
 end Slu.Ilu
